@@ -172,26 +172,42 @@ theorem foldBinInt_sound (op : Op) (bb : Option (Bool × Bool)) (l r : Int) (res
     foldBinInt op bb l r = some res → pyBinInt op bb l r = .ok res := by
   intro h
   cases op <;> simp only [foldBinInt, pyBinInt] at h ⊢
-  case add | sub | mul => injection h with h; subst h; rfl
+  case add | sub => injection h with h; subst h; rfl
+  case mul =>
+    split at h
+    · injection h with h; subst h; rfl
+    · cases h
   case truediv | floordiv | mod =>
     split at h
     · rename_i hc; injection h with h; subst h; simp [hc]
     · cases h
   case band | bor | bxor =>
     split at h <;> (injection h with h; subst h; rfl)
-  case lshift | rshift | pow =>
+  case rshift =>
     split at h
     · rename_i hc; injection h with h; subst h
       have : ¬ r < 0 := by omega
       simp [this]
     · cases h
+  case lshift | pow =>
+    split at h
+    · rename_i hc
+      split at h
+      · injection h with h; subst h
+        have : ¬ r < 0 := by omega
+        simp [this]
+      · cases h
+    · cases h
   case matmul => cases h
 
-theorem foldBinInt_complete (op : Op) (bb : Option (Bool × Bool)) (l r : Int) (v : Val) :
+/-- below the guard the int folder returns whatever CPython computes -/
+theorem foldBinInt_complete (op : Op) (bb : Option (Bool × Bool)) (l r : Int) (v : Val)
+    (hg : intGuardOk op l r = true) :
     pyBinInt op bb l r = .ok (.val v) → foldBinInt op bb l r = some (.val v) := by
   intro h
   cases op <;> simp only [foldBinInt, pyBinInt] at h ⊢
-  case add | sub | mul => injection h with h; rw [h]
+  case add | sub => injection h with h; rw [h]
+  case mul => injection h with h; rw [if_pos hg, h]
   case truediv =>
     split at h <;> cases h
   case floordiv | mod =>
@@ -200,20 +216,61 @@ theorem foldBinInt_complete (op : Op) (bb : Option (Bool × Bool)) (l r : Int) (
     · rename_i hc; injection h with h; simp [hc, h]
   case band | bor | bxor =>
     split at h <;> (injection h with h; rw [h])
-  case lshift | rshift =>
+  case rshift =>
     split at h
     · cases h
     · rename_i hc; injection h with h
       have : r ≥ 0 := by omega
       simp [this, h]
+  case lshift =>
+    split at h
+    · cases h
+    · rename_i hc; injection h with h
+      have : r ≥ 0 := by omega
+      rw [if_pos this, if_pos hg, h]
   case pow =>
     split at h
     · split at h <;> cases h
     · rename_i hc; injection h with h
       have : r ≥ 0 := by omega
-      simp [this, h]
+      rw [if_pos this, if_pos hg, h]
   case matmul => cases h
 
+/-- above the guard the int folder declines -/
+theorem foldBinInt_guard (op : Op) (bb : Option (Bool × Bool)) (l r : Int)
+    (hg : intGuardOk op l r = false) : foldBinInt op bb l r = none := by
+  have hn : ¬ intGuardOk op l r = true := by rw [hg]; simp
+  cases op <;> simp only [foldBinInt]
+  case mul => rw [if_neg hn]
+  case lshift => split <;> first | rfl | rw [if_neg hn]
+  case pow => split <;> first | rfl | rw [if_neg hn]
+  all_goals (simp [intGuardOk] at hg)
+
+/-! ### sequence repetition and concatenation inside the folders -/
+
+theorem foldRepeat_sound (flag : Bool) (mk : List Nat → Val) (s : List Nat) (n : Int) (r : Res)
+    (h : foldRepeat flag mk s n = some r) : seqMul mk s n = .ok r := by
+  unfold foldRepeat at h
+  split at h
+  · rename_i hc
+    simp only [Bool.and_eq_true] at hc
+    injection h with h; subst h
+    simp [seqMul, hc.2]
+  · cases h
+
+theorem foldRepeat_complete (flag : Bool) (mk : List Nat → Val) (s : List Nat) (n : Int) (r : Res)
+    (hg : seqGuardOk flag s.length n = true) (h : seqMul mk s n = .ok r) : foldRepeat flag mk s n = some r := by
+  unfold seqMul at h
+  unfold foldRepeat
+  split at h
+  · rename_i hc
+    injection h with h; subst h
+    simp [hg, hc]
+  · cases h
+
+theorem foldRepeat_guard (flag : Bool) (mk : List Nat → Val) (s : List Nat) (n : Int)
+    (hg : seqGuardOk flag s.length n = false) : foldRepeat flag mk s n = none := by
+  simp [foldRepeat, hg]
 
 theorem ite_ok {c : Prop} [Decidable c] {x v : Val}
     (h : (if c then PyRes.ok (.val x) else PyRes.raises .overflowError) = PyRes.ok (.val v)) : x = v := by
@@ -221,5 +278,55 @@ theorem ite_ok {c : Prop} [Decidable c] {x v : Val}
   · injection h with h; injection h
   · cases h
 
+
+theorem foldRepeat_ne_float (flag : Bool) (mk : List Nat → Val) (s : List Nat) (n : Int) :
+    foldRepeat flag mk s n ≠ some .float := by
+  unfold foldRepeat; split <;> simp
+
+/-! ### `int.bit_length()` and the size of guarded results -/
+
+theorem natAbs_lt_pow_bitLength (a : Int) : a.natAbs < 2 ^ bitLength a := by
+  unfold bitLength
+  split
+  · rename_i h; subst h; simp
+  · exact Nat.lt_log2_self
+
+theorem bitLength_le_of_lt (a : Int) (k : Nat) (h : a.natAbs < 2 ^ k) : bitLength a ≤ k := by
+  unfold bitLength
+  split
+  · omega
+  · rename_i ha
+    have hne : a.natAbs ≠ 0 := by omega
+    have := (Nat.log2_lt hne).2 h
+    omega
+
+theorem bitLength_mul (a b : Int) : bitLength (a * b) ≤ bitLength a + bitLength b := by
+  apply bitLength_le_of_lt
+  rw [Int.natAbs_mul, Nat.pow_add]
+  exact Nat.mul_lt_mul'' (natAbs_lt_pow_bitLength a) (natAbs_lt_pow_bitLength b)
+
+theorem bitLength_shl (a : Int) (n : Nat) : bitLength (shl a n) ≤ bitLength a + n := by
+  apply bitLength_le_of_lt
+  unfold shl
+  rw [Int.natAbs_mul, Int.natAbs_pow, Nat.pow_add]
+  have h2 : (2 : Int).natAbs = 2 := rfl
+  rw [h2]
+  exact Nat.mul_lt_mul_of_lt_of_le (natAbs_lt_pow_bitLength a) (Nat.le_refl _) (Nat.pow_pos (by omega))
+
+theorem bitLength_pow (a : Int) (n : Nat) : bitLength (a ^ n) ≤ max 1 (bitLength a * n) := by
+  cases n with
+  | zero =>
+    have h1 : (a : Int) ^ 0 = 1 := by simp
+    have : bitLength ((a : Int) ^ 0) = 1 := by rw [h1]; decide
+    omega
+  | succ m =>
+    have : bitLength (a ^ (m + 1)) ≤ bitLength a * (m + 1) := by
+      apply bitLength_le_of_lt
+      rw [Int.natAbs_pow, Nat.pow_mul]
+      exact Nat.pow_lt_pow_left (natAbs_lt_pow_bitLength a) (by omega)
+    omega
+
+theorem pyRepeat_length (s : List Nat) (n : Int) : (pyRepeat s n).length = n.toNat * s.length := by
+  unfold pyRepeat; exact repeatSeq_length s n.toNat
 
 end Fold
